@@ -66,9 +66,36 @@ def flatten_test(ctx, g):
            "degree() is not `successors(Some((0, 0)), apply w).skip(1).skip_while(row != 0).next()` (skip 1: %s, start (0, 0): %s, skip_while row != 0: %s)" % (oks, seed_ok, sw_ok))
 
 
+def core_type_table(ctx, g):
+    """core_type: the two groups of order 4 are told apart by is_fully_involutive - and ONLY groups of order 4: "v4" needs len == 4 and all
+    generators acting as involutions, "z4" needs len == 4 and not; every other size is named by core_type_by_size(len).  (A fully
+    involutive table of size 6, 8 or 24 is s3 / d4 / s4, not v4: the label is the search key of pseudo_toroidal_cover.)"""
+    ctx.clauses.append("core_type: v4 / z4 exactly for tables of 4 rows (split by is_fully_involutive), core_type_by_size(len) otherwise (T4 decision table)")
+    b = ctx.body("delaney3d::core_type")
+    ct = ("param", 1, b.debug.get(1, ""))
+    ln = ("call", "fpgroups::cosets::CosetTable::len", (ct,))
+    inv = ("call", "delaney3d::is_fully_involutive", (ct,))
+    rows = {}
+    for bi, t in b.calls():
+        if t["dest"]["l"] != 0 or t["dest"]["p"]:
+            continue
+        a = [strip(norm(b.origin(x), g)) for x in t["args"]]
+        key = a[0][1] if a and a[0][0] == "str" else ("by_size" if t["callee"].get("def", "").endswith("core_type_by_size") and a == [ln] else show(a[0], 1)[:30] if a else "?")
+        fa = [atom_norm(x, g) for x in b.facts_at(bi)]
+        size4 = True if any(x == ("rel", "Eq", ln, ("int", 4)) for x in fa) else False if any(x == ("rel", "Ne", ln, ("int", 4)) for x in fa) else None
+        invol = True if ("bool", inv, True) in fa else False if ("bool", inv, False) in fa else None
+        rows[key] = (size4, invol)
+    want = {"v4": (True, True), "z4": (True, False), "by_size": (False, None)}
+    bad = [k for k in want if rows.get(k) != want[k]] + [k for k in rows if k not in want]
+    ctx.ob("T4-core-type-table", b.name, "decision table", "ok" if not bad else "violation",
+           "v4 <- len == 4 & involutive, z4 <- len == 4 & not involutive, core_type_by_size(len) <- len != 4" if not bad else
+           "the decision table is %s (label: (len == 4, fully involutive)); expected %s: a fully involutive table of another size is filed under the wrong point group and tried in the wrong order" % (rows, want))
+
+
 def run(ctx):
     g = ctx.facts.getters()
     flatten_test(ctx, g)
+    core_type_table(ctx, g)
     two_d(ctx, g)
     three_d(ctx, g)
     candidates(ctx, g)
